@@ -402,7 +402,11 @@ def main(argv):
                 ls.append(b"line %d" % i)
         return ls
 
+    stream_hangs = [hangs]      # a tool that already hung is not fed 20 more long streams
+
     def check_stream(tag, ls, st, so, se, how):
+        if st == "timeout":
+            stream_hangs[0] += 1
         c.count((tag, len(ls)), nontrivial=True, bucket="long-stream/" + tag.split(":")[0])
         rep = {"op": "tool", "lines": len(ls), "status": st, "stdout_lines": so.count(b"\n"), "stderr": se.decode("utf-8", "replace")[-300:], "how": how}
         if st == "timeout":
@@ -421,6 +425,8 @@ def main(argv):
 
     idc = os.path.join(CHILDREN, "child_id.py")
     for n in ((1022, 1023, 1024, 2046, 2047, 3500) if quick else (1021, 1022, 1023, 1024, 1025, 2045, 2046, 2047, 2048, 3069, 3500, 5200)):
+        if stream_hangs[0] >= 3:
+            break
         ls = mklines(n)
         mode = ["-s"] if n % 2 else []
         st, so, se = run_limited([tool, "-w", "40"] + mode + [idc], stdin=b"".join(l + b"\n" for l in ls), timeout=60)
@@ -430,6 +436,8 @@ def main(argv):
     bigl = bigs.encode("utf-8")
     ls = mklines(30) + [bigl, b"", bigs[: len(bigs) // 2].encode("utf-8")] + mklines(30)
     for mode in ([], ["-s"]):
+        if stream_hangs[0] >= 3:
+            break
         st, so, se = run_limited([tool, "-w", "40"] + mode + [idc], stdin=b"".join(l + b"\n" for l in ls), timeout=120)
         check_stream("big-line" + (mode and ":-s" or ""), ls, st, so, se, "60 short lines around two lines of ~300 kB / 150 kB | foldfilter -w 40 %s child_id.py" % " ".join(mode))
     for n, cuts in ((2500, (1023, 2046)), (1100, (1022,)), (2100, (1024, 2047))):
@@ -441,6 +449,8 @@ def main(argv):
             prev = cpos
         parts.append(b"".join(enc[prev:]))
         for mode, child in (([], "cat"), (["-s"], idc)):
+            if stream_hangs[0] >= 3:
+                break
             st, so, se = run_staged([tool, "-w", "40"] + mode + [child], parts, pause=1.2, timeout=60)
             check_stream("stalled-stdin:%s%s" % (os.path.basename(child), mode and " -s" or ""), ls, st, so, se,
                          "%d lines, stdin pauses 1.2 s after line(s) %s | foldfilter -w 40 %s %s" % (n, list(cuts), " ".join(mode), os.path.basename(child)))
@@ -459,7 +469,11 @@ def main(argv):
             c.broken.append("model driver died on width option cases: " + err[-200:])
             wm = None
     for i, w in enumerate(wstrs):
+        if stream_hangs[0] >= 3:
+            break
         st, so, se = run_limited([tool, "-w", w, os.path.join(CHILDREN, "child_id.py")], stdin=winp, timeout=10, mem_mb=2048)
+        if st == "timeout":
+            stream_hangs[0] += 1
         valid = w.isdigit() and w.isascii() and int(w) < 2 ** 64
         c.count(("width-option", w), nontrivial=True, bucket="width-option/" + ("number" if valid else "not-a-number"))
         rep = {"op": "tool", "argv": ["-w", w, "child_id.py"], "stdin": winp.decode("utf-8"), "status": st, "stdout_hex": hx(so),
